@@ -303,6 +303,229 @@ pub enum Op {
     Attributions { client: u64, s: u32, e: u32 },
     ClockStart { client: u64 },
     ClockEnd { client: u64 },
+    /// The NON-mutating `IdSet::merge` / `diff` / `intersect` (`which`) of
+    /// `state` with `other`: result, agreement with the mutating variant,
+    /// operands unchanged.
+    NonMut { which: String },
+    /// `IdSet::from(IdMap)` and `IdMap::as_id_set` of `state` (an attributed
+    /// map built through construction order `method`).
+    FromIdMap { method: String },
+    /// The delete set of a document built by a script (`IdSet::from_store`
+    /// behind `ReadTxn::snapshot`).
+    FromStore(StoreScript),
+}
+
+// ---- document scripts (target from_store) -----------------------------------
+
+pub const NONMUT_KINDS: [&str; 3] = ["merge", "diff", "intersect"];
+pub const NESTED_KINDS: [&str; 4] = ["array", "map", "array_map", "map_array"];
+pub const TXN_MODES: [&str; 3] = ["per_call", "per_step", "whole"];
+
+#[derive(Clone, Debug, PartialEq)]
+pub enum Step {
+    /// Append `n` single elements (text: one character each; array: one
+    /// primitive each), one public call per element: one clock each.
+    Push { client: u64, n: u32 },
+    /// Array documents only: append one nested shared type with `children`
+    /// children (see `nested_clocks`).
+    PushNested { client: u64, kind: String, children: u32 },
+    /// `remove_range(index, len)` on the root type.
+    Remove { client: u64, index: u32, len: u32 },
+}
+
+impl Step {
+    pub fn client(&self) -> u64 {
+        match self {
+            Step::Push { client, .. } | Step::PushNested { client, .. } | Step::Remove { client, .. } => *client,
+        }
+    }
+}
+
+/// Clocks consumed by one nested element: the element itself plus everything
+/// integrated below it.
+/// `array`: ArrayPrelim of `children` primitives; `map`: MapPrelim of
+/// `children` primitive entries; `array_map`: ArrayPrelim of `children`
+/// MapPrelims with one primitive entry each; `map_array`: MapPrelim of
+/// `children` entries, each an ArrayPrelim of one primitive.
+pub fn nested_clocks(kind: &str, children: u32) -> u32 {
+    match kind {
+        "array_map" | "map_array" => 1 + 2 * children,
+        _ => 1 + children,
+    }
+}
+
+#[derive(Clone, Debug, PartialEq)]
+pub struct StoreScript {
+    /// Root type: `"text"` or `"array"`.
+    pub doc: String,
+    /// `!Options::skip_gc`.
+    pub gc: bool,
+    /// `per_call`: every public call in its own transaction; `per_step`: one
+    /// transaction per step; `whole`: one transaction per maximal run of
+    /// steps of the same client.
+    pub txn: String,
+    pub steps: Vec<Step>,
+}
+
+/// What the oracle derives from a script.
+pub struct ScriptOutcome {
+    /// Ids that must be reported deleted.
+    pub deleted: O,
+    /// Next clock per client (= state vector).
+    pub next: [u32; 2],
+}
+
+impl StoreScript {
+    pub fn clients(&self) -> usize {
+        if self.steps.iter().any(|s| s.client() == 2) {
+            2
+        } else {
+            1
+        }
+    }
+
+    /// Clock tracking: every inserted element consumes its clocks in order;
+    /// deletions consume none. The documents of a two-client script are
+    /// synchronised whenever the acting client changes (and at the end), so
+    /// both see the same sequence. `Err`: the script is malformed.
+    pub fn outcome(&self) -> Result<ScriptOutcome, String> {
+        if self.doc != "text" && self.doc != "array" {
+            return Err(format!("op.doc: unknown root type {:?}", self.doc));
+        }
+        if !TXN_MODES.contains(&self.txn.as_str()) {
+            return Err(format!("op.txn: unknown mode {:?}", self.txn));
+        }
+        let mut next = [0u32; 2];
+        // live elements in document order: (client index, first clock, clocks)
+        let mut live: Vec<(usize, u32, u32)> = Vec::new();
+        let mut deleted = O::empty();
+        for (i, step) in self.steps.iter().enumerate() {
+            let ci = client_index(step.client()).ok_or_else(|| format!("step {}: client must be 1 or 2", i))?;
+            match step {
+                Step::Push { n, .. } => {
+                    for _ in 0..*n {
+                        live.push((ci, next[ci], 1));
+                        next[ci] += 1;
+                    }
+                }
+                Step::PushNested { kind, children, .. } => {
+                    if self.doc != "array" {
+                        return Err(format!("step {}: push_nested needs an array document", i));
+                    }
+                    if !NESTED_KINDS.contains(&kind.as_str()) {
+                        return Err(format!("step {}: unknown nested kind {:?}", i, kind));
+                    }
+                    let c = nested_clocks(kind, *children);
+                    live.push((ci, next[ci], c));
+                    next[ci] += c;
+                }
+                Step::Remove { index, len, .. } => {
+                    let (s, e) = (*index as usize, *index as usize + *len as usize);
+                    if e > live.len() {
+                        return Err(format!("step {}: remove_range({},{}) out of bounds (length {})", i, index, len, live.len()));
+                    }
+                    for (ci, clock, c) in live.drain(s..e) {
+                        if (clock + c) as usize > L {
+                            return Err(format!("step {}: more than {} clocks per client are not supported", i, L));
+                        }
+                        deleted.insert(ci, clock, clock + c, UNIT);
+                    }
+                }
+            }
+            if next[ci] as usize > L {
+                return Err(format!("step {}: more than {} clocks per client are not supported", i, L));
+            }
+        }
+        Ok(ScriptOutcome { deleted, next })
+    }
+
+    pub fn to_json(&self) -> J {
+        let steps = self
+            .steps
+            .iter()
+            .map(|s| match s {
+                Step::Push { client, n } => with_client(vec![("step", J::str("push")), ("n", J::num(*n))], *client),
+                Step::PushNested { client, kind, children } => with_client(
+                    vec![
+                        ("step", J::str("push_nested")),
+                        ("nested", J::str(kind)),
+                        ("children", J::num(*children)),
+                    ],
+                    *client,
+                ),
+                Step::Remove { client, index, len } => with_client(
+                    vec![("step", J::str("remove_range")), ("index", J::num(*index)), ("len", J::num(*len))],
+                    *client,
+                ),
+            })
+            .collect();
+        J::obj(vec![
+            ("kind", J::str("from_store")),
+            ("doc", J::str(&self.doc)),
+            ("clients", J::num(self.clients() as u32)),
+            ("gc", J::Bool(self.gc)),
+            ("txn", J::str(&self.txn)),
+            ("steps", J::Arr(steps)),
+        ])
+    }
+
+    fn from_json(j: &J) -> Result<StoreScript, String> {
+        let text = |key: &str, default: &str| -> Result<String, String> {
+            match j.get_non_null(key) {
+                Some(v) => Ok(v.as_str().ok_or_else(|| format!("op.{}: expected a string", key))?.to_string()),
+                None => Ok(default.to_string()),
+            }
+        };
+        let gc = match j.get_non_null("gc") {
+            Some(J::Bool(b)) => *b,
+            Some(_) => return Err("op.gc: expected true or false".into()),
+            None => true,
+        };
+        let mut steps = Vec::new();
+        let arr = j.get("steps").and_then(|s| s.as_arr()).ok_or("op.steps: expected an array")?;
+        for (i, st) in arr.iter().enumerate() {
+            let what = format!("op.steps[{}]", i);
+            let num = |key: &str| -> Result<u32, String> {
+                let v = u32_of(st.get(key).ok_or_else(|| format!("{}.{} missing", what, key))?, &what)?;
+                if v as usize > L {
+                    return Err(format!("{}.{}: values above {} are not supported", what, key, L));
+                }
+                Ok(v)
+            };
+            let client = match st.get_non_null("client") {
+                Some(c) => c.as_i64().ok_or_else(|| format!("{}.client: expected a number", what))? as u64,
+                None => 1,
+            };
+            if client_index(client).is_none() {
+                return Err(format!("{}.client must be 1 or 2", what));
+            }
+            let kind = st.get("step").and_then(|k| k.as_str()).ok_or_else(|| format!("{}.step missing", what))?;
+            steps.push(match kind {
+                "push" => Step::Push { client, n: num("n")? },
+                "push_nested" => Step::PushNested {
+                    client,
+                    kind: st
+                        .get("nested")
+                        .and_then(|k| k.as_str())
+                        .ok_or_else(|| format!("{}.nested missing", what))?
+                        .to_string(),
+                    children: num("children")?,
+                },
+                "remove_range" | "remove" => Step::Remove {
+                    client,
+                    index: num("index")?,
+                    len: num("len")?,
+                },
+                other => return Err(format!("{}: unknown step {:?}", what, other)),
+            });
+        }
+        Ok(StoreScript {
+            doc: text("doc", "text")?,
+            gc,
+            txn: text("txn", "per_call")?,
+            steps,
+        })
+    }
 }
 
 #[derive(Clone, Debug)]
@@ -365,6 +588,9 @@ impl Op {
             ),
             Op::ClockStart { client } => with_client(vec![("kind", J::str("clock_start"))], *client),
             Op::ClockEnd { client } => with_client(vec![("kind", J::str("clock_end"))], *client),
+            Op::NonMut { which } => J::obj(vec![("kind", J::str("nonmut")), ("op", J::str(which))]),
+            Op::FromIdMap { method } => J::obj(vec![("kind", J::str("from_idmap")), ("build", J::str(method))]),
+            Op::FromStore(script) => script.to_json(),
         }
     }
 
@@ -421,6 +647,21 @@ impl Op {
             }
             "clock_start" => Op::ClockStart { client },
             "clock_end" => Op::ClockEnd { client },
+            "nonmut" => {
+                let which = j.get("op").and_then(|m| m.as_str()).ok_or("op.op missing (merge | diff | intersect)")?;
+                let which = if which == "exclude" { "diff" } else { which };
+                if !NONMUT_KINDS.contains(&which) {
+                    return Err(format!("op.op: unknown operation {:?}", which));
+                }
+                Op::NonMut { which: which.to_string() }
+            }
+            "from_idmap" => Op::FromIdMap {
+                method: match j.get_non_null("build") {
+                    Some(m) => m.as_str().ok_or("op.build: expected a string")?.to_string(),
+                    None => "canonical".to_string(),
+                },
+            },
+            "from_store" => Op::FromStore(StoreScript::from_json(j)?),
             other => return Err(format!("unknown op.kind {:?}", other)),
         })
     }
@@ -518,7 +759,7 @@ impl Case {
         }
         let needs_other = matches!(
             op,
-            Op::Merge | Op::Exclude | Op::Intersect | Op::SubsetOf { .. } | Op::Equal
+            Op::Merge | Op::Exclude | Op::Intersect | Op::SubsetOf { .. } | Op::Equal | Op::NonMut { .. }
         );
         let other = if needs_other && other.is_none() {
             Some(O::empty())
